@@ -35,6 +35,18 @@ def init_state(I: Interp, c: dsl.Contract, fi):
             st.lheap[lid] = {key: Sym(z3.Const(f"arg_{p}_{key}", V)) for key in c.ldict_params[p]}
             for vv in st.lheap[lid].values():
                 st.pc.append(z3.Implies(is_ref(vv.t), get_loc(vv.t) < st.A0))
+            # entries with a concrete tuple shape and symbolic leaves (e.g. a SAN list of n pairs)
+            for path_, shape in (getattr(c, "tuple_params", None) or {}).items():
+                pp, _, key = path_.partition(".")
+                if pp != p:
+                    continue
+                def build(sh):
+                    if isinstance(sh, str):
+                        sv_ = Sym(z3.Const("arg_" + sh, V))
+                        st.pc.append(z3.Implies(is_ref(sv_.t), get_loc(sv_.t) < st.A0))
+                        return sv_
+                    return Tup([build(x) for x in sh])
+                st.lheap[lid][key] = build(shape)
             env[p] = LDict(lid)
             continue
         ty = c.param_types.get(p)
